@@ -15,6 +15,9 @@ var worlds = map[string]kernel.WorldFunc{
 	"C13": keyset.Run,
 	"C04": props.RunC04,
 	"C10": props.RunC10,
+	"C05": props.RunC05,
+	"C07": props.RunC07,
+	"C08": props.RunC08,
 }
 
 // TestSim is the single entry point of the test binary; the driver script
